@@ -161,13 +161,13 @@ Proof.
 Qed.
 
 (* ---- replacing the content of p by a list that adds at most the sub-element c, which is an okpair ---- *)
-Lemma typed_add_edge w p np c nc content' :
-  TypedU w -> w_nodes w p = Some np -> w_nodes w c = Some nc ->
-  okpair (n_type np) (n_name nc) (n_type nc) ->
+Lemma typed_add_edge w p np c content' :
+  TypedU w -> w_nodes w p = Some np ->
+  (forall nc, w_nodes w c = Some nc -> okpair (n_type np) (n_name nc) (n_type nc)) ->
   (forall x, In (CElem x) content' -> x = c \/ In (CElem x) (n_content np)) ->
   TypedU (wset w p (set_content np content')).
 Proof.
-  intros HT Hp Hc Hok Hin i n x xn Hn Hx Hxn.
+  intros HT Hp Hok Hin i n x xn Hn Hx Hxn.
   assert (Hnode : forall j y, w_nodes (wset w p (set_content np content')) j = Some y ->
             exists y0, w_nodes w j = Some y0 /\ n_type y0 = n_type y /\ n_name y0 = n_name y /\ (j <> p -> y = y0)).
   { intros j y Hj. destruct (N.eq_dec j p) as [->|Hne].
@@ -179,7 +179,7 @@ Proof.
   - rewrite nodes_wset_eq in Hn. injection Hn as <-. cbn [n_content set_content] in Hx.
     rewrite Hp in Hn0. injection Hn0 as <-.
     destruct (Hin _ Hx) as [->|Hold].
-    + rewrite Hc in Hxn0. injection Hxn0 as <-. exact Hok.
+    + exact (Hok _ Hxn0).
     + exact (HT p np x xn0 Hp Hold Hxn0).
   - rewrite (Hsame Hne) in Hx. exact (HT i n0 x xn0 Hn0 Hx Hxn0).
 Qed.
@@ -217,8 +217,8 @@ Proof.
   split.
   - apply (bounded_add_edge _ self n (w_next w)); [exact B1|exact Hself1|cbn [walloc w_next]; lia|].
     intros x Hx. exact (in_insert_elem _ _ _ _ Hx).
-  - apply (typed_add_edge _ self n (w_next w) nd); [exact T1|exact Hself1|apply nodes_walloc_new| |].
-    + exists version, et, ix. cbn [nd new_node n_name n_type]. auto.
+  - apply (typed_add_edge _ self n (w_next w)); [exact T1|exact Hself1| |].
+    + intros nc Hnc. rewrite nodes_walloc_new in Hnc. injection Hnc as <-. exists version, et, ix. cbn [nd new_node n_name n_type]. auto.
     + intros x Hx. exact (in_insert_elem _ _ _ _ Hx).
 Qed.
 
